@@ -311,12 +311,12 @@ func (s *Service) dispatch(response map[string]map[string]any, client *ClientSer
 				AgentID = val.(string)
 			}
 
-			MagicValue64, err := strconv.ParseInt(MagicValue, 16, 32)
+			MagicValue64, err := strconv.ParseInt(MagicValue, 16, 64)
 			if err != nil {
 				logger.Error("MagicValue64: " + err.Error())
 			}
 
-			AgentID64, err := strconv.ParseInt(AgentID, 16, 32)
+			AgentID64, err := strconv.ParseInt(AgentID, 16, 64)
 			if err != nil {
 				logger.Error("MagicValue64: " + err.Error())
 			}
